@@ -201,7 +201,8 @@ theorem numStart_no92 (c : Nat) (ns0 : NS) (h : numStart c = some ns0) : c ≠ 9
     literal is not a digit -/
 theorem number_inv (cfg : Cfg) {stk : List PS} {n : Nat} (_hctx : Ctx stk n) (s0 : St) (hvs : vState s0.st = true)
     (hstk : s0.stack = stk) (c : Nat) (cs : Bytes) (ns0 : NS) (hs : numStart c = some ns0) (h : Acc cfg s0 (c :: cs)) :
-    ∃ lit r, Spec.Rfc8259.parseNumber (c :: cs) = some (lit, r) ∧ NoDigitHead r ∧ c :: cs = lit ++ r ∧ ∀ x ∈ lit, x ≠ 92 := by
+    ∃ lit r, Spec.Rfc8259.parseNumber (c :: cs) = some (lit, r) ∧ NoDigitHead r ∧ c :: cs = lit ++ r ∧ lit ≠ [] ∧
+      ∀ x ∈ lit, x ≠ 92 := by
   have he0 := h.err_none
   unfold Acc at h
   have hv : valueStart cfg s0 c = some { s0 with st := .number, ns := ns0, buf := [c] } := by
@@ -239,7 +240,7 @@ theorem number_inv (cfg : Cfg) {stk : List PS} {n : Nat} (_hctx : Ctx stk n) (s0
           have h2 := hsplit
           rw [e1, ← List.cons_append] at h2
           exact (List.append_cancel_right h2).symm
-        refine ⟨lit, r', rfl, ?_, hsplit, ?_⟩
+        refine ⟨lit, r', rfl, ?_, hsplit, by rw [hlit]; simp, ?_⟩
         · intro d r'' e
           rcases numFinal_next f d hf (e3 d r'' e) with ⟨hz, hd⟩ | hd
           · subst e
